@@ -28,6 +28,8 @@ import sym  # noqa: E402
 KERNELS = {
     "C01": ["k_index_of", "k_str_slice", "k_str_insert", "k_random", "k_unique_id"],
     "C06": ["k_unique_id", "k_random"],
+    "C11": ["k_plus_minus_units", "k_numeric_cmp"],
+    "C12": ["k_numeric_cmp"],
     "C14": ["k_is_true", "k_and_or", "k_binop_short_circuit", "k_not"],
     "C26": ["k_str_slice", "k_str_insert"],
     "C28": ["k_index_of", "k_set_nth"],
